@@ -56,7 +56,15 @@ void arena_reset()
 {
   arena_init();
   // everything below the bump pointer has been given a shadow value; unallocated memory beyond
-  // it is recognised by offset >= bump
+  // it is recognised by offset >= bump. The bytes themselves are wiped so that an out-of-bounds or
+  // stale read sees the same content in every run, whatever ran before in this process.
+  if (bump > high_water)
+    high_water = bump;
+  if (high_water) {
+    size_t n = high_water + 4096 < ARENA_SIZE ? high_water + 4096 : ARENA_SIZE;
+    memset((void *)ARENA_BASE, 0xCD, n);
+  }
+  high_water = 0;
   bump = 0;
   blocks.clear();
 }
@@ -87,6 +95,8 @@ static void *arena_alloc(size_t n, size_t align, uintptr_t pc)
   memset(shadow + (end8 >> 3), SH_RED, REDZONE >> 3);
   // deterministic, non-zero fill so reads of uninitialised heap memory repeat exactly
   memset((void *)(ARENA_BASE + start), 0xAB, end8 - start);
+  memset((void *)(ARENA_BASE + bump), 0xFA, start - bump);      // red zones have a fixed content too
+  memset((void *)(ARENA_BASE + end8), 0xFA, REDZONE);
   Block b;
   b.base = ARENA_BASE + start;
   b.size = n;
